@@ -544,6 +544,10 @@ def r13_2(ctx):
             if how.startswith("via "):
                 allowed_fns.add(how[4:])      # an extracted spawn helper between execute_file and the task closure
     task_parts = set()
+    # wherever the task closure is built (execute_file, or a `spawn_preprocess` helper spliced into whichever function re-runs a file)
+    for sb, sbb, st_, scl in rules_sched.spawner_bodies(ctx):
+        if scl is not None and calls_to(scl, ROLE["preprocess"]):
+            allowed_fns.add(sb.name)
     if cl:
         allowed_fns.add(cl.name)
         # closures spliced into the task closure (the task body handed to a generic `spawn(task)` helper): part of the task
